@@ -23,9 +23,11 @@ LEVEL_TEXT = ('Real slimta Queue on dict, disk (pyaio), redis (redis-py vs in-pr
               'recipients, 1..3 concurrent messages, empty senders, bounded/unbounded pools and gated storage '
               'calls; the disposition ledger is checked once every timer has been run down (bounded progress). '
               'A second stratum runs the real SMTP and LMTP relays (with their connection pools) against a scripted '
-              'next hop, and the real pipe relay (per-recipient or not) running a real delivery program with planned '
-              'exit status / output / signal death / overrun of the shared timeout, behind the probe (HTTP relay '
-              'outcomes are judged by C11). Held = held on the '
+              'next hop, the real HTTP relay (with its pool, connection reuse) against a scripted HTTP next hop '
+              '(2xx, 3xx/4xx/5xx with and without X-Smtp-Reply, dropped and refused connections), and the real pipe '
+              'relay (per-recipient or not) and its Dovecot-LDA / maildrop specialisations running a real delivery '
+              'program with planned exit status / output / signal death / overrun of the shared timeout, behind the '
+              'probe. Backoff tables include fractional, negative and very large waits. Held = held on the '
               'histories reported.')
 LEVEL_NOTE = ('Trusted: virtual clock shim, scripted relay probe (it is the witness of what the relay reported), '
               'backend doubles (MiniRedis, MemObjectStore), quiescence detection. Liveness is restated as bounded '
@@ -35,7 +37,8 @@ RULE = ('case = one seeded history (config + PRNG seed). non-trivial = history w
         'attempts of one message; distinct by (backend, per-message outcome-sequence shape, pool config)')
 ASSUMPTIONS = ['the relay probe\'s per-recipient report is what "reported delivered by the relay" means',
                'a bounce factory returning None is a documented way to suppress a bounce and counts as reported']
-REQUIRED_HITS = ['attempt-outcomes-observed', 'histories-judged', 'recipients-ledgered', 'real-relay-histories']
+REQUIRED_HITS = ['attempt-outcomes-observed', 'histories-judged', 'recipients-ledgered', 'real-relay-histories',
+                 'real-relay-http-failures-consumed', 'unreported-recipients-ledgered']
 SHARDS = {'quick': 12, 'thorough': 16}
 BUDGET = {'quick': 70, 'thorough': 800}
 
@@ -45,6 +48,35 @@ BACKENDS = C.BACKENDS_ALL
 def gen_cases(tier, seed, shard, nshards):
     rnd = random.Random('c01-%d-%d' % (seed, shard))
     plan = C.backend_plan(9000 if tier == 'quick' else 250000, BACKENDS)
+    # the small deciding strata come first: a budget cut on a loaded machine must not starve them
+    # per-recipient results that say nothing about some recipient (mapping without its key, sequence shorter
+    # than the recipient list): such a recipient is neither delivered nor failed -- it is still outstanding
+    for be in BACKENDS:
+        for i in range(max(1, (plan[be] // 6) // nshards)):
+            cfg = {'backend': be, 'stratum': 'unreported', 'profile': ['map', 'seq', 'map', 'seq', 'temp'],
+                   'rcpt_profile': rnd.choice([['ok', 'reply', 'temp', 'perm'], ['ok', 'perm'], ['ok', 'temp']]),
+                   'seq_len_p': 0.5, 'map_omit_p': 0.5,
+                   'backoffs': rnd.choice([[0, None], [0, 0, 0, None], [4, 4, None]]),
+                   'rcpts': (2, 4), 'nmsg': rnd.randint(1, 2), 'null_sender_p': 0.2,
+                   'store_pool': rnd.choice([None, None, 2]), 'relay_pool': rnd.choice([None, None, 2]),
+                   'gate_p': rnd.choice([0.0, 0.3]), 'steps': 20}
+            yield {'cfg': cfg, 'seed': rnd.randrange(1 << 40)}
+    # real relay kinds (SMTP / LMTP clients with their connection pool) behind the probe,
+    # talking to the scripted next hop: what the Queue acts on is what the real relay reported
+    nreal = (264 if tier == 'quick' else 12000) // nshards
+    kinds = ['smtp', 'lmtp', 'http', 'pipe', 'http', 'pipe-one', 'smtp', 'lmtp', 'http', 'dovecot', 'maildrop']
+    for i in range(max(1, nreal)):
+        cfg = {'backend': rnd.choice(['dict', 'dict', 'disk', 'cloud', 'redis']),
+               'real_relay': kinds[(i + shard) % len(kinds)],
+               'backoffs': rnd.choice([[0, None], [0, 3, None], [2, 2, 2, None]]),
+               'rcpts': (1, 4), 'nmsg': rnd.randint(1, 3), 'null_sender_p': 0.2,
+               'relay_idle': rnd.choice([None, 0.5]), 'relay_pool_size': rnd.choice([None, 1, 2]),
+               'pipe_slow_p': rnd.choice([0.05, 0.15, 0.3]),
+               'steps': 20}
+        if cfg['real_relay'] in ('pipe-one', 'maildrop'):
+            cfg['rcpts'] = (1, 1)      # documented use: behind a recipient-splitting policy
+        yield {'cfg': cfg, 'seed': rnd.randrange(1 << 40)}
+    # ---- bulk: scripted relay, seeded histories
     for be in BACKENDS:
         for i in range(max(1, plan[be] // nshards)):
             cfg = {'backend': be,
@@ -54,34 +86,31 @@ def gen_cases(tier, seed, shard, nshards):
                    'rcpt_profile': rnd.choice([['ok', 'reply', 'temp', 'temp', 'perm'], ['temp', 'perm'],
                                                ['ok', 'temp']]),
                    'backoffs': rnd.choice([[None], [0, None], [0, 0, 0, None], [4, 4, None], [1, 3, 9, 27, None],
-                                           [0, 5, 0, 5, None]]),
+                                           [0, 5, 0, 5, None],
+                                           # "all backoff functions": fractional, negative, huge waits
+                                           [0.25, 1.0 / 3, None], [-3, -0.5, None], [1e9, 2 ** 40, None],
+                                           'default']),        # Queue(backoff=None): the library's own policy
                    'rcpts': (1, 4), 'nmsg': rnd.randint(1, 3), 'null_sender_p': 0.2,
                    'store_pool': rnd.choice([None, None, None, 1, 2]),
                    'relay_pool': rnd.choice([None, None, None, 1, 2]),
                    'gate_p': rnd.choice([0.0, 0.3]), 'flush_p': rnd.choice([0, 0, 0.15]),
                    'bounce_none_p': rnd.choice([0, 0, 0.3]),
+                   'pool_objects': rnd.random() < 0.25,
                    'prepop': rnd.choice([0, 0, 1]), 'steps': rnd.choice([20, 35])}
             yield {'cfg': cfg, 'seed': rnd.randrange(1 << 40)}
-    # real relay kinds (SMTP / LMTP clients with their connection pool) behind the probe,
-    # talking to the scripted next hop: what the Queue acts on is what the real relay reported
-    nreal = (180 if tier == 'quick' else 9000) // nshards
-    for i in range(max(1, nreal)):
-        cfg = {'backend': rnd.choice(['dict', 'dict', 'disk', 'cloud', 'redis']),
-               'real_relay': rnd.choice(['smtp', 'lmtp', 'pipe', 'pipe', 'pipe-one']),
-               'backoffs': rnd.choice([[0, None], [0, 3, None], [2, 2, 2, None]]),
-               'rcpts': (1, 4), 'nmsg': rnd.randint(1, 3), 'null_sender_p': 0.2,
-               'relay_idle': rnd.choice([None, 0.5]), 'relay_pool_size': rnd.choice([None, 1, 2]),
-               'pipe_slow_p': rnd.choice([0.05, 0.15, 0.3]),
-               'steps': 20}
-        if cfg['real_relay'] == 'pipe-one':
-            cfg['rcpts'] = (1, 1)      # documented use: behind a recipient-splitting policy
-        yield {'cfg': cfg, 'seed': rnd.randrange(1 << 40)}
 
 
 def _hits(lab, H, R):
     if lab.cfg.get('real_relay'):
         R.hit('real-relay-histories')
         R.count('real-relay/' + lab.cfg['real_relay'])
+        if lab.cfg['real_relay'] == 'http':
+            # whole-message failures the real HTTP relay raised and the Queue had to act on
+            R.hit('real-relay-http-failures-consumed',
+                  sum(1 for e in lab.events if e[1] == 'attempt_end' and e[4] in ('temp', 'perm')))
+            R.count('real-relay-http-deliveries', sum(1 for e in lab.events if e[1] == 'attempt_end' and e[4] == 'ok'))
+    R.hit('unreported-recipients-ledgered', sum(1 for e in lab.events if e[1] == 'attempt_end'
+                                                for c, _ in e[5].values() if c == 'A'))
     R.hit('recipients-ledgered', sum(len(i['rc']) for i in H.accepted.values()))
     R.count('bounces-enqueued', sum(1 for e in lab.events if e[1] == 'bounce_enqueued'))
     R.count('exhaustions', sum(1 for e in lab.events if e[1] == 'backoff' and e[4] is None))
@@ -108,9 +137,16 @@ def _classify(lab, H, kind, m, d):
     if C.pool_cycle_deadlock(lab):
         return 'store-pool<->relay-pool-cycle-deadlock'
     last = None
+    last_status = None
     for e in lab.events:
         if e[1] == 'attempt_end' and e[2] == m:
             last = e[4]
+            if d.get('recipient') in e[5]:
+                last_status = e[5][d['recipient']][0]
+    if kind == 'lost' and last_status == 'A':
+        # the last per-recipient result that covered the recipient's attempt said nothing about it; the queue
+        # did not keep it as outstanding (message removed at once, or when the deferred ones were exhausted)
+        return 'lost/recipient-not-mentioned-by-per-recipient-result-not-kept-outstanding'
     sp = lab.cfg.get('store_pool') is not None
     rp = lab.cfg.get('relay_pool') is not None
     return '%s/%s/%s/last-outcome=%s/%s' % (kind, be, crash, last,
